@@ -96,6 +96,34 @@ def build_replacement(rng, pel, ppos, kind, nudge=(0.02, 0.09)):
                 els.append(pel[j]); pos.append([float(ppos[j][i] + float(v[i])) for i in range(3)]); shared.append(None)
             else:
                 els.append(pel[j]); pos.append(list(ppos[j])); shared.append(j)
+    elif kind == "subst_last":
+        for j in range(n - 1):
+            els.append(pel[j]); pos.append(list(ppos[j])); shared.append(j)
+        new_atom(ppos[n - 1])
+    elif kind == "subst1":
+        # the first atom kept, the second substituted in place
+        els.append(pel[0]); pos.append(list(ppos[0])); shared.append(0)
+        new_atom(ppos[1])
+    elif kind == "on_axis_keep0":
+        els.append(pel[0]); pos.append(list(ppos[0])); shared.append(0)
+        new_atom(np.array(ppos[0]) + rng.choice([1.5, 2.0, -1.0]) * (np.array(ppos[1]) - np.array(ppos[0])))
+    elif kind == "stretch":
+        # last atom substituted by another element and moved out along its bond to atom 0 (1.75 × the bond length)
+        for j in range(n - 1):
+            els.append(pel[j]); pos.append(list(ppos[j])); shared.append(j)
+        p0, pk = np.array(ppos[0]), np.array(ppos[n - 1])
+        new_atom(p0 + 1.75 * (pk - p0))
+    elif kind == "int_new":
+        # all coordinates WHOLE numbers (a pattern typed with plain integers): 2–4 new atoms around the search pattern
+        base = np.round(cen)
+        seen = set()
+        for _ in range(rng.randint(2, 4)):
+            for attempt in range(20):
+                off = tuple(int(v) for v in (np.array(far_vector(rng, 1.0, 8.0)).round()))
+                if off not in seen:
+                    seen.add(off)
+                    break
+            new_atom(base + np.array(off))
     elif kind == "subst":
         k = rng.randrange(n)
         for j in range(n):
@@ -148,6 +176,16 @@ LONG_PATTERNS = {
     "longlin3": (["N", "C", "O"], [(0, 0, 0), (5.0, 0, 0), (10.0, 0, 0)]),
 }
 TILT_PATTERNS = ["long8", "long6", "long7"]
+# site patterns A = C, N, O, H whose longest pair (N–O) has a generic direction, while the pair N–H lies EXACTLY along one
+# coordinate axis; replacement kind "stretch" substitutes H by a heavier atom further out on that axis, so that in B the
+# longest pair (N–X) lies exactly along the coordinate axis
+for _ax, _perm in (("x", (1, 0, 2)), ("y", (0, 1, 2)), ("z", (0, 2, 1))):
+    _base = [(0, 0, 0), (0, -1.25, 0), (2.0, 0.5, 0.25), (0, 1.0, 0)]
+    LONG_PATTERNS["axsite@" + _ax] = (["C", "N", "O", "H"], [tuple(p[_perm[i]] for i in range(3)) for p in _base])
+AXSITE_PATTERNS = ["axsite@x", "axsite@y", "axsite@z"]
+# a weakly chiral pattern: its last atom is only 0.25 Å out of the plane of the others, so the mirror image misses by 0.5 Å —
+# far more than any tolerance used with it (0.1), far less than 0.1 × (a coordinate of 6 Å or more)
+LONG_PATTERNS["twist4"] = (["C", "N", "O", "F"], [(0, 0, 0), (1.25, 0, 0), (0.25, 1.375, 0), (-0.5, -0.25, 0.25)])
 
 
 def rodrigues(axis, angle):
@@ -163,7 +201,7 @@ def pattern_atoms_json(els, pos, charges=None):
 
 def make_case(rng, tier="quick", cell_kind=None, pname=None, boundary="default", replace_all=None, rp_kind=None,
               atol=None, ncopies=None, distort=None, fmax=0.6, exact=None, hints="auto", nudge=(0.02, 0.09),
-              tilt=None, flip=None, bent=None):
+              tilt=None, flip=None, bent=None, int_rp=None, mirror_far=False):
     """flip: None = in ~8 % of the cases ONE unperturbed copy of a non-collinear pattern is planted whose long axis is parallel
     or antiparallel to the pattern's axis as written up to eps (copy turned by eps, pi − eps, pi or pi + eps about an axis
     perpendicular to the pattern's long axis, eps = 1e-9 … 1e-3): well inside every tolerance.
@@ -315,6 +353,38 @@ def make_case(rng, tier="quick", cell_kind=None, pname=None, boundary="default",
                 bent_info = round(h / atol, 1)
                 break
         n = len(case["elems"])
+    mirror_info = None
+    if mirror_far:
+        # the MIRROR IMAGE of the pattern (not an occurrence), far from the cell origin: all coordinates above 0.7 × cell length
+        cellf = np.array(case["cell"], dtype=float)
+        cinv = np.linalg.inv(cellf)
+        pos = [np.array(x, dtype=float) for x in case["pos"]]
+        pp = np.array(case["pattern"]["pos"], dtype=float)
+        mp = (pp - pp[0]) * np.array([1.0, 1.0, -1.0])
+        for attempt in range(300):
+            Rr = np.array([[float(v) for v in row] for row in findlib.rotmat(findlib.rat_quat(rng))])
+            origin = np.array([rng.uniform(0.72, 0.9) for _ in range(3)]).dot(cellf)
+            pts = [origin + Rr.dot(v) for v in mp]
+            ok = True
+            for q in pts:
+                for x in pos:
+                    f = (q - x).dot(cinv)
+                    f -= np.round(f)
+                    if np.linalg.norm(f.dot(cellf)) < 2.0:
+                        ok = False
+                        break
+                if not ok:
+                    break
+            if ok:
+                for k, q in enumerate(pts):
+                    fq = q.dot(cinv) % 1.0
+                    fq[fq >= 1.0] = 0.0
+                    pos.append(fq.dot(cellf))
+                    case["elems"].append(case["pattern"]["elems"][k])
+                case["pos"] = [[float(v) for v in x] for x in pos]
+                mirror_info = [round(float(v), 2) for v in origin]
+                break
+        n = len(case["elems"])
     dist_info = "none"
     if distort and case["planted"]:
         cellf = np.array(case["cell"], dtype=float)
@@ -342,6 +412,15 @@ def make_case(rng, tier="quick", cell_kind=None, pname=None, boundary="default",
     pel, ppos = case["pattern"]["elems"], case["pattern"]["pos"]
     # both patterns live in an arbitrary frame: the first search atom is generally NOT at the origin
     shift = [dyad(rng, -3, 3) for _ in range(3)] if rng.random() < 0.75 else [0.0, 0.0, 0.0]
+    # int_rp: the replacement pattern is written with plain INTEGER coordinates (and is to be constructed from ints), while
+    # the first search atom sits at a non-integer position
+    if int_rp is None:
+        int_rp = rp_kind is None and rng.random() < 0.07
+    if int_rp:
+        rp_kind = "int_new"
+        k = rng.randrange(3)
+        if float(ppos[0][k]) + shift[k] == round(float(ppos[0][k]) + shift[k]):
+            shift[k] += rng.choice([0.5, 0.25, 0.375, -0.4375])
     ppos = [[float(p[i]) + shift[i] for i in range(3)] for p in ppos]
     if rp_kind is None:
         rp_kind = rng.choice(RP_KINDS)
@@ -364,13 +443,79 @@ def make_case(rng, tier="quick", cell_kind=None, pname=None, boundary="default",
             h1 = rng.randrange(len(pel))
             h2 = rng.choice([None] + [j for j in range(len(pel)) if j != h1])
             hints = (h1, h2, None)
-    return {"op": "c05", "hints": list(hints), "s": sj, "p": pj, "r": rj, "atol": atol, "replace_all": bool(replace_all),
+    return {"op": "c05", "hints": list(hints), "int_rp": bool(int_rp), "s": sj, "p": pj, "r": rj, "atol": atol, "replace_all": bool(replace_all),
             "seed": rng.randrange(10 ** 6), "shared": shared, "tags": tags,
             "info": {"cell": cell_kind, "pattern": pname, "boundary": str(boundary), "rp": rp_kind,
                      "copies": len(case["planted"]), "decoys": case["info"]["decoys"], "atol": atol,
                      "distorted": dist_info,
                      "exact180": bool(exact), "tilt_over_atol": tilt_info, "flip": flip_info,
-                     "bent_decoy_h_over_atol": bent_info}}
+                     "bent_decoy_h_over_atol": bent_info,
+                     "mirror_far": mirror_info}}
+
+
+def make_star_case(rng, tier="quick"):
+    """several occurrences of a two-atom pattern SHARE their first atom (a centre with 3–4 partners, e.g. C–H on a methyl
+    carbon), partners numbered in random order; the replacement keeps the centre and substitutes the partner; only a part
+    of the occurrences is replaced (replace_fraction < 1)"""
+    pname = rng.choice(["pair", "pair@y", "pair@z"])
+    pel, ppos0 = findlib.PATTERNS[pname]
+    d = float(np.linalg.norm(np.array(ppos0[1], dtype=float) - np.array(ppos0[0], dtype=float)))
+    cell_kind = rng.choice(["ortho", "tri+", "tri-", "rot"])
+    cell = np.array([[float(v) for v in row] for row in findlib.make_cell(rng, cell_kind, 9.0)])
+    cinv = np.linalg.inv(cell)
+    elems, pos = [], []
+    nstars = rng.randint(1, 2)
+    for sidx in range(nstars):
+        for attempt in range(100):
+            c = np.array([rng.random() for _ in range(3)]).dot(cell)
+            k = rng.randint(3, 4)
+            dirs = []
+            for _ in range(200):
+                v = np.array([rng.uniform(-1, 1) for _ in range(3)])
+                if np.linalg.norm(v) < 0.2:
+                    continue
+                v = v / np.linalg.norm(v)
+                if all(np.dot(v, w) < 0.2 for w in dirs):       # partners ≥ ~1.26·d apart: no partner–partner confusion
+                    dirs.append(v)
+                if len(dirs) == k:
+                    break
+            if len(dirs) < k:
+                continue
+            pts = [c] + [c + d * v for v in dirs]
+            ok = True
+            for q in pts:
+                for x in pos:
+                    f = (q - x).dot(cinv)
+                    f -= np.round(f)
+                    if np.linalg.norm(f.dot(cell)) < 2.6:
+                        ok = False
+            if ok:
+                order = list(range(1, len(pts)))
+                rng.shuffle(order)
+                elems.append(pel[0]); pos.append(pts[0])
+                for j in order:
+                    elems.append(pel[1]); pos.append(pts[j])
+                break
+    fr = np.array(pos).dot(cinv) % 1.0
+    fr[fr >= 1.0] = 0.0
+    pos = fr.dot(cell)
+    shift = [dyad(rng, -3, 3) for _ in range(3)]
+    ppos = [[float(p[i]) + shift[i] for i in range(3)] for p in ppos0]
+    rel, rpos, shared = build_replacement(rng, list(pel), ppos, rng.choice(["subst1", "on_axis_keep0"]))
+    tags = [100.0 + k + 0.5 for k in range(len(rel))]
+    n = len(elems)
+    sj = findlib.struct_json(elems, [[float(v) for v in x] for x in pos], [[float(v) for v in row] for row in cell],
+                             charges=[(i + 1) / 16.0 for i in range(n)], groups=[rng.randint(0, 3) for _ in range(n)])
+    pj = pattern_atoms_json(pel, ppos)
+    rj = pattern_atoms_json(rel, rpos, charges=tags)
+    for a in rj["atoms"]:
+        a["g"] = 7
+    return {"op": "c05", "hints": [None, None, None], "int_rp": False, "s": sj, "p": pj, "r": rj, "atol": 0.05,
+            "replace_all": False, "seed": rng.randrange(10 ** 6), "shared": shared, "tags": tags,
+            "fraction": rng.choice([0.34, 0.5, 0.67, 0.25, 0.75]),
+            "info": {"cell": cell_kind, "pattern": pname, "boundary": "None", "rp": "star", "copies": n - nstars, "decoys": [],
+                     "atol": 0.05, "distorted": "none", "exact180": False, "tilt_over_atol": [], "flip": None,
+                     "bent_decoy_h_over_atol": None, "star": True}}
 
 
 def rand_motion(rng, pure_translation=False):
